@@ -77,6 +77,51 @@ def xor(a, b):
     return Xor(s, c)
 
 
+class Word:
+    """An integer assembled from bytes: {byte position: int | Sym}; the
+    value is the sum of byte << (8 * position).  Built by `b << 8k`,
+    `w | w`, `w + w` (disjoint positions) and `b * 256`."""
+    __slots__ = ("bytes",)
+
+    def __init__(self, bytes_):
+        self.bytes = {k: v for k, v in bytes_.items() if v != 0}
+
+    @staticmethod
+    def of(v):
+        if isinstance(v, Word):
+            return v
+        if isinstance(v, Sym):
+            return Word({0: v})
+        if type(v) is int and v >= 0:
+            out, k = {}, 0
+            while v:
+                out[k] = v & 0xFF
+                v >>= 8
+                k += 1
+            return Word(out)
+        return None
+
+    def shifted(self, nbytes):
+        return Word({k + nbytes: v for k, v in self.bytes.items()})
+
+    def merged(self, o):
+        if set(self.bytes) & set(o.bytes):
+            return None
+        d = dict(self.bytes)
+        d.update(o.bytes)
+        return Word(d)
+
+    def __eq__(self, o):
+        return isinstance(o, Word) and o.bytes == self.bytes
+
+    def __hash__(self):
+        return hash(tuple(sorted((k, repr(v)) for k, v in self.bytes.items())))
+
+    def __repr__(self):
+        return "Word(%s)" % ", ".join("%d:%r" % kv for kv in sorted(
+            self.bytes.items(), reverse=True))
+
+
 class Unknown:
     def __init__(self, why=""):
         self.why = why
@@ -496,6 +541,20 @@ class WireEval:
         if isinstance(r, (list, tuple)) and isinstance(l, int) and \
                 isinstance(op, ast.Mult):
             return list(r) * l
+        # integers assembled from frame bytes
+        if isinstance(l, (Sym, Word)) or isinstance(r, (Sym, Word)):
+            if isinstance(op, ast.LShift) and type(r) is int and \
+                    r % 8 == 0 and Word.of(l) is not None:
+                return Word.of(l).shifted(r // 8)
+            if isinstance(op, ast.Mult) and type(r) is int and r in (
+                    256, 65536) and Word.of(l) is not None:
+                return Word.of(l).shifted(1 if r == 256 else 2)
+            if isinstance(op, (ast.BitOr, ast.Add)):
+                a_, b_ = Word.of(l), Word.of(r)
+                if a_ is not None and b_ is not None:
+                    m_ = a_.merged(b_)
+                    if m_ is not None:
+                        return m_
         if isinstance(l, str) and isinstance(op, ast.Mod):
             return Unknown("fmt")
         if isinstance(l, str) and isinstance(r, str) and isinstance(
